@@ -307,6 +307,62 @@ class _InlineTemps(ast.NodeTransformer):
                     self._blocks(st, counts)
 
 
+class _ExtractTemps(ast.NodeTransformer):
+    """return <expr> -> tmp = <expr>; return tmp   and   x = f(<binop>) -> tmp = <binop>; x = f(tmp)  for the FIRST positional argument of a
+    call on the right-hand side of a plain assignment (evaluation order is unchanged: the first argument is evaluated first anyway)."""
+
+    def __init__(self):
+        self.k = 0
+
+    def visit_FunctionDef(self, node):
+        self.generic_visit(node)
+        if any(isinstance(n, (ast.Lambda, ast.ListComp, ast.GeneratorExp, ast.DictComp, ast.SetComp)) or (isinstance(n, ast.FunctionDef) and n is not node) for n in ast.walk(node)):
+            return node
+        self._blocks(node)
+        return node
+
+    def _blocks(self, node):
+        for field in ("body", "orelse", "finalbody"):
+            blk = getattr(node, field, None)
+            if not isinstance(blk, list) or not blk or not isinstance(blk[0], ast.stmt):
+                continue
+            out = []
+            for st in blk:
+                if isinstance(st, ast.Return) and st.value is not None and isinstance(st.value, (ast.BinOp, ast.Call)) and _pure(st.value):
+                    self.k += 1
+                    name = "tmp_ret_%d" % self.k
+                    out.append(ast.Assign(targets=[ast.Name(id=name, ctx=ast.Store())], value=st.value))
+                    out.append(ast.Return(value=ast.Name(id=name, ctx=ast.Load())))
+                    continue
+                if isinstance(st, ast.Assign) and len(st.targets) == 1 and isinstance(st.targets[0], ast.Name) and isinstance(st.value, ast.Call) \
+                        and st.value.args and isinstance(st.value.args[0], ast.BinOp) and _pure(st.value.args[0]) and isinstance(st.value.func, (ast.Name, ast.Attribute)) \
+                        and not (isinstance(st.value.func, ast.Attribute) and not isinstance(st.value.func.value, ast.Name)):
+                    self.k += 1
+                    name = "tmp_arg_%d" % self.k
+                    out.append(ast.Assign(targets=[ast.Name(id=name, ctx=ast.Store())], value=st.value.args[0]))
+                    st.value.args[0] = ast.Name(id=name, ctx=ast.Load())
+                    out.append(st)
+                    continue
+                if not isinstance(st, (ast.FunctionDef, ast.ClassDef)):
+                    self._blocks(st)
+                out.append(st)
+            blk[:] = out
+
+
+class _GuardClauses(ast.NodeTransformer):
+    """inside loops: a trailing `if c: A` (no else) becomes `if not c: continue` followed by A"""
+
+    def _loop(self, node):
+        self.generic_visit(node)
+        if node.body and isinstance(node.body[-1], ast.If) and not node.body[-1].orelse and not node.orelse:
+            last = node.body[-1]
+            node.body[-1:] = [ast.If(test=ast.UnaryOp(op=ast.Not(), operand=last.test), body=[ast.Continue()], orelse=[])] + last.body
+        return node
+
+    visit_For = _loop
+    visit_While = _loop
+
+
 REWRITES = {
     "unparse-roundtrip": lambda t: t,
     "flip-comparisons": lambda t: _FlipCompare().visit(t),
@@ -315,6 +371,8 @@ REWRITES = {
     "rename-locals": lambda t: _RenameLocals().visit(t),
     "swap-if-else": lambda t: _SwapIfElse().visit(t),
     "inline-temps": lambda t: _InlineTemps().visit(t),
+    "extract-temps": lambda t: _ExtractTemps().visit(t),
+    "guard-clauses": lambda t: _GuardClauses().visit(t),
 }
 
 
